@@ -45,6 +45,13 @@ def var(E, path, v):
     return k[1] if k and k[0] == 'eq' else None
 
 
+def is_some_of(E, path, got, x):
+    """is `got` the Option Some(x) - as a literal or as a symbolic value the path knows to be Some with payload x"""
+    if got == some(x):
+        return True
+    return got[0] != 'agg' and var(E, path, got) == 'Some' and inner(got) == x
+
+
 def writes(path):
     return [e for e in path.events if e['k'] == 'write']
 
@@ -268,7 +275,7 @@ def run(C, R):
             ok = fin(path, D(P) + ('first_child',)) == some(Cc) and fin(path, D(Cc) + ('parent',)) == some(P)
             v = var(E, path, ofc)
             if v == 'Some':
-                ok = ok and fin(path, D(Cc) + ('next',)) == some(inner(ofc)) and \
+                ok = ok and is_some_of(E, path, fin(path, D(Cc) + ('next',)), inner(ofc)) and \
                     fin(path, D(inner(ofc)) + ('prev',)) == some(Cc)
             elif v != 'None':
                 ok = False
